@@ -34,7 +34,7 @@ func (v *Verifier) newEnc(fn *ssa.Function, fc *FuncContract) *enc {
 		reach: map[*ssa.BasicBlock]string{}, exitSt: map[*ssa.BasicBlock]map[string]string{},
 		params: map[string]Val{}, dbg: map[string][]ssa.Value{}, callOrd: map[string]int{}, safeOrd: map[string]int{},
 		loopWrites: map[*ssa.BasicBlock]map[string]bool{}, tuples: map[ssa.Value][]Val{}, deferArgs: map[*ssa.Defer][]Val{}, iters: map[*ssa.Range]string{},
-		writeIdx: map[*ssa.BasicBlock]map[string][]string{}, declSeq: map[string]int{}, allocd: map[string]bool{}}
+		writeIdx: map[*ssa.BasicBlock]map[string][]string{}, rangeInfo: map[*ssa.Range]*rangeRec{}, declSeq: map[string]int{}, allocd: map[string]bool{}}
 	e.safetyProps = v.safetyPropsFor(fn)
 	return e
 }
@@ -182,6 +182,7 @@ func (e *enc) finishFrames() {
 				ok = false
 				break
 			}
+			t = e.expandDefs(t, fr.headSeq, 0)
 			if !seen[t] {
 				seen[t] = true
 				excl = append(excl, "(not (= fr.i "+t+"))")
@@ -197,12 +198,56 @@ func (e *enc) finishFrames() {
 
 // termInvariant: every declared symbol occurring in the term was declared before sequence number seq.
 func (e *enc) termInvariant(t string, seq int) bool {
+	return e.termInv(t, seq, 0)
+}
+
+func (e *enc) termInv(t string, seq int, depth int) bool {
+	if depth > 8 {
+		return false
+	}
 	for _, tokn := range strings.FieldsFunc(t, func(r rune) bool { return r == '(' || r == ')' || r == ' ' }) {
 		if s, ok := e.declSeq[tokn]; ok && s > seq {
+			// a named sub-term introduced later is fine if its definition is itself invariant
+			if d, isDef := e.defs[tokn]; isDef && e.termInv(d, seq, depth+1) {
+				continue
+			}
 			return false
 		}
 	}
 	return true
+}
+
+// expandDefs replaces defined names by their definitions (used when a term must be stated
+// before the point where the name was introduced).
+func (e *enc) expandDefs(t string, seq int, depth int) string {
+	if depth > 8 {
+		return t
+	}
+	var b strings.Builder
+	i := 0
+	for i < len(t) {
+		c := t[i]
+		if c == '(' || c == ')' || c == ' ' {
+			b.WriteByte(c)
+			i++
+			continue
+		}
+		j := i
+		for j < len(t) && t[j] != '(' && t[j] != ')' && t[j] != ' ' {
+			j++
+		}
+		tokn := t[i:j]
+		if s, ok := e.declSeq[tokn]; ok && s > seq {
+			if d, isDef := e.defs[tokn]; isDef {
+				b.WriteString(e.expandDefs(d, seq, depth+1))
+				i = j
+				continue
+			}
+		}
+		b.WriteString(tokn)
+		i = j
+	}
+	return b.String()
 }
 
 func (e *enc) assumeAllocated(v Val) {
@@ -1277,6 +1322,27 @@ func (e *enc) rangeInit(x *ssa.Range) {
 	e.set(name, "0")
 	e.bind(x, Val{T: name, S: "Int", GT: x.Type()})
 	e.iters[x] = name
+	mt, isMap := x.X.Type().Underlying().(*types.Map)
+	if !isMap {
+		return
+	}
+	// ghost key sequence of this iteration: a bijection between [0, n) and the domain at range start
+	src := e.val(x.X)
+	dom, _, ln, ks, _ := e.mapNames(mt)
+	seq := "keyseq." + symSafe(e.name) + "." + x.Name()
+	idx := "keyidx." + symSafe(e.name) + "." + x.Name()
+	e.declFun(seq, []Sort{"Int"}, ks)
+	e.declFun(idx, []Sort{ks}, "Int")
+	n := e.define("rng.n."+x.Name(), "Int", ite("(= "+src.T+" 0)", "0", sel(e.get(ln), src.T)))
+	d0 := e.define("rng.dom."+x.Name(), "(Array "+ks+" Bool)", sel(e.get(dom), src.T))
+	e.rangeInfo[x] = &rangeRec{seq: seq, idx: idx, n: n, dom: d0, src: src.T}
+	e.assumeHere("(>= " + n + " 0)")
+	e.assumeHere("(forall ((i Int)) (! (=> (and (<= 0 i) (< i " + n + ")) (and (select " + d0 + " (" + seq + " i)) (= (" + idx + " (" + seq + " i)) i))) :pattern ((" + seq + " i))))")
+	e.assumeHere("(forall ((k " + ks + ")) (! (=> (select " + d0 + " k) (and (<= 0 (" + idx + " k)) (< (" + idx + " k) " + n + ") (= (" + seq + " (" + idx + " k)) k))) :pattern ((select " + d0 + " k)) :pattern ((" + idx + " k))))")
+}
+
+type rangeRec struct {
+	seq, idx, n, dom, src string
 }
 
 func (e *enc) next(x *ssa.Next) {
@@ -1300,20 +1366,41 @@ func (e *enc) next(x *ssa.Next) {
 		return
 	}
 	mt := rg.X.Type().Underlying().(*types.Map)
-	dom, val, ln, ks, vs := e.mapNames(mt)
-	// ghost key sequence of the map object at the time iteration started is approximated by the
-	// current domain: keyseq(m, i) enumerates distinct keys of the domain; count = len.
-	seq := "keyseq." + sortKey(ks)
-	e.declFun(seq, []Sort{"Int", "Int"}, ks)
-	n := sel(e.get(ln), src.T)
-	ok := and("(not (= "+src.T+" 0))", "(< "+p+" "+n+")")
-	k := "(" + seq + " " + src.T + " " + p + ")"
+	_, val, _, ks, vs := e.mapNames(mt)
+	ri := e.rangeInfo[rg]
+	if ri == nil {
+		e.errf("%s: next without range info", e.name)
+		return
+	}
+	e.assumeHere(and("(>= "+p+" 0)", "(<= "+p+" "+ri.n+")"))
+	ok := "(< " + p + " " + ri.n + ")"
+	k := "(" + ri.seq + " " + p + ")"
 	okc := e.define("ok."+x.Name(), "Bool", ok)
-	e.assumeHere(implies(okc, sel(e.get(dom), src.T, k)))
-	kv := Val{T: k, S: ks, GT: mt.Key()}
-	vv := Val{T: sel(e.get(val), src.T, k), S: vs, GT: mt.Elem()}
+	kv := Val{T: e.define("key."+x.Name(), ks, k), S: ks, GT: mt.Key()}
+	vv := Val{T: e.define("val."+x.Name(), vs, sel(e.get(val), src.T, kv.T)), S: vs, GT: mt.Elem()}
 	e.assumeHere(implies(okc, e.te.TypeInv(vv.T, mt.Elem())))
+	switch mt.Elem().Underlying().(type) {
+	case *types.Pointer, *types.Map:
+		e.knownRef(vv.T)
+	}
 	e.tuples[x] = []Val{{T: okc, S: "Bool"}, kv, vv}
 	e.set(pos, ite(okc, "(+ "+p+" 1)", p))
 	e.bind(x, Val{T: "tuple", S: "Tuple", GT: x.Type()})
+}
+
+// rangeByOrdinal: the k-th `range` over a map/string of the function, in source order.
+func (e *enc) rangeByOrdinal(k int) *ssa.Range {
+	var rs []*ssa.Range
+	for _, b := range e.fn.Blocks {
+		for _, in := range b.Instrs {
+			if r, ok := in.(*ssa.Range); ok {
+				rs = append(rs, r)
+			}
+		}
+	}
+	sort.Slice(rs, func(i, j int) bool { return rs[i].Pos() < rs[j].Pos() })
+	if k < 0 || k >= len(rs) {
+		return nil
+	}
+	return rs[k]
 }
